@@ -189,6 +189,17 @@ class G(object):
             tx, ty = {"into": self.point_in, "border": self.point_border, "beside": self.point_beside}[aim](reg)
         if axes is None:
             axes = r.choices(["XY", "X", "Y", "XYZ", "Z"], k.get("axes_w", [60, 10, 10, 10, 10]))[0]
+        if not k.get("clear_path") and aim == "far":
+            # special values: exactly 0 (a zero-valued word), the current coordinate (a zero offset in
+            # relative mode), small round numbers whose relative sums leave float residue
+            sp = r.random()
+            p_special = k.get("p_special", 0.08)
+            if sp < p_special:
+                tx = r.choice([0.0, self.x, 0.1, 0.2, 0.3])
+            elif sp < 2 * p_special:
+                ty = r.choice([0.0, self.y, 0.1, 0.2, 0.3])
+            elif sp < 2.3 * p_special:
+                tx, ty = 0.0, 0.0
         nx, ny, nz = self.x, self.y, self.z
         op = {"op": "move"}
         if "X" in axes:
@@ -199,6 +210,8 @@ class G(object):
             op["y"] = ny
         if "Z" in axes:
             nz = max(0.1, r2(self.z + r.choice([0.2, 0.2, -0.2, 1.0, -1.0, 5.0]), 2))
+            if k.get("tiny_z") and r.random() < k["tiny_z"]:
+                nz = r.choice([0.0, 0.1, 0.2, 0.3])
             op["z"] = nz
         if k.get("clear_path") and self.inside_margin(nx, ny, k.get("clear_margin", 0.05)):
             # single-axis combination would end in/near a region: use the full far point instead
@@ -288,6 +301,13 @@ class G(object):
             else:
                 op["len"] = self.rlen
                 op["f"] = r.choice([1800, 2400, 3600])
+                if self.k.get("wipe") and r.random() < self.k["wipe"]:
+                    # Slic3r-style wipe: the retraction rides on an X/Y move
+                    tx, ty = self.point_far() if r.random() < 0.5 or not self.regions else \
+                        self.point_in(r.choice(list(self.regions.values())))
+                    op = {"op": "move", "g": 1, "x": tx, "y": ty, "de": -self.rlen, "wipe": True, "grp": self.cyc}
+                    self.x, self.y = tx, ty
+                    self.ep = self.inside(tx, ty) if self.enabled else False
             self.ops.append(op)
             self.retracted = True
         else:
@@ -509,7 +529,7 @@ class G(object):
             if kind == "move":
                 self.move()
             elif kind == "arc":
-                if self.rel and not k.get("rel_arcs"):
+                if self.rel and k.get("rel_arcs") is False:
                     self.move()
                 else:
                     self.arc()
